@@ -158,6 +158,14 @@ def own_body(ctx: H.BaseCtx):
                     ("tile(reps=array)", numpy.array([2, 1], dtype=numpy.int64), lambda x: numpoly.tile(vec, x)),
                     ("cross_truncate(indices)", numpy.array([[0.0, 3.0], [2.0, 2.0]]), lambda x: numpoly.cross_truncate(x, 3, 1)),
                     ("glexsort(keys)", numpy.array([[2, 0, 1], [1, 1, 0]], dtype=numpy.int64), lambda x: numpoly.glexsort(x, graded=True, reverse=True)),
+                    ("loadtxt(usecols=array with negatives) of a polynomial file", numpy.array([0, -2, -1], dtype=numpy.int64), lambda x: _load_with(vec, usecols=x)),
+                    ("loadtxt(usecols=0-d array) of a polynomial file", numpy.array(-1, dtype=numpy.int64), lambda x: _load_with(vec, usecols=x)),
+                    ("loadtxt(usecols=array) of a plain file", numpy.array([-1, 0], dtype=numpy.int64), lambda x: numpoly.loadtxt(__import__("io").StringIO("1 2 3\n4 5 6\n"), usecols=x)),
+                    ("loadtxt(skiprows=array)", numpy.array(0, dtype=numpy.int64), lambda x: _load_with(vec, skiprows=x)),
+                    ("sum(axis=array)", numpy.array(-1, dtype=numpy.int64), lambda x: numpoly.sum(vec.reshape(2, 2), axis=int(x) if False else x)),
+                    ("prod(axis=array)", numpy.array([-1], dtype=numpy.int64), lambda x: numpoly.prod(vec.reshape(2, 2), axis=tuple(x) if False else x)),
+                    ("transpose(axes=array)", numpy.array([-1, 0], dtype=numpy.int64), lambda x: numpoly.transpose(vec.reshape(2, 2), x)),
+                    ("moveaxis(array, array)", numpy.array([-1], dtype=numpy.int64), lambda x: numpoly.moveaxis(vec.reshape(2, 2), x, numpy.array([0]))),
                 ):
                     before_a = arr.tobytes()
                     try:
@@ -231,6 +239,16 @@ def own_body(ctx: H.BaseCtx):
     except Exception as e:
         ctx.fail("harness-exception", "%s: %s" % (type(e).__name__, e))
     check_unmodified(ctx, ops, snap)
+
+
+def _load_with(poly, **kw):
+    import io
+    import numpoly
+
+    f = io.StringIO()
+    numpoly.savetxt(f, poly)
+    f.seek(0)
+    return numpoly.loadtxt(f, **kw)
 
 
 def body(ctx: H.BaseCtx):
